@@ -208,6 +208,13 @@ func main() {
 	} {
 		ls = append(ls, listed{t, true, "reserved-names"})
 	}
+	// redundant parentheses directly after a clause keyword (recorded finding:
+	// the grammar lets every reserved word be a function name, and ALL(*)
+	// prefers the function-call statement)
+	for _, t := range []string{"FOR i IN [1,2] FILTER (i > 1) RETURN i", "FOR i IN [2,1] SORT (i) RETURN i", "FOR i IN [1,2] FILTER (i > 1) AND true RETURN i",
+		"FOR i IN [2,1] SORT (i) DESC RETURN i", "FOR i IN [1,2] FILTER ((i > 1)) RETURN (i)"} {
+		ls = append(ls, listed{t, true, "clause-paren"})
+	}
 	// random lexical probes: RETURN / LET followed by a short string over a lexer-relevant alphabet
 	alphabet := []string{"a", "B", "x", "0", "1", "9", "_", ".", "e", "E", "+", "-", `"`, "'", `\`, "`", "´", "/", "*", ":", "@", "?", "!", "=", "~",
 		"&", "|", " ", "\n", "n", "é", "(", ")", "[", "]", ",", "<", ">", "%"}
@@ -331,6 +338,9 @@ func tagsFor(text string, err error) []string {
 	var tags []string
 	if err != nil && strings.Contains(err.Error(), "nil pointer") && strings.Contains(text, "@") {
 		tags = append(tags, "param-reserved-word")
+	}
+	if err != nil && (strings.Contains(err.Error(), "not found: function: 'FILTER'") || strings.Contains(err.Error(), "not found: function: 'SORT'")) {
+		tags = append(tags, "paren-after-clause-keyword")
 	}
 	return tags
 }
